@@ -197,6 +197,12 @@ func (s *scripted) set(r *respSpec) {
 	s.mu.Unlock()
 }
 
+func (s *scripted) endlessBody() bool {
+	s.mu.Lock()
+	defer s.mu.Unlock()
+	return s.cur != nil && s.cur.deliv >= delivThenBlocks
+}
+
 func (s *scripted) count() int {
 	s.mu.Lock()
 	defer s.mu.Unlock()
@@ -297,7 +303,7 @@ func vcardParse(b []byte) (res string) {
 // The codecs of /repo (Status, Href, ETag, Time) are code under test as well: a panic of
 // one of them is recovered here and reported as "x" (the model then has no value for the
 // element), the client call itself is observed separately under its own recover.
-func annotate(ns, local string, text []byte) (ann string) {
+func annotate(ns, local string, text []byte, kids []xml.StartElement) (ann string) {
 	defer func() {
 		if recover() != nil {
 			ann = "x"
@@ -321,26 +327,65 @@ func annotate(ns, local string, text []byte) (ann string) {
 		return hx.L("p", hx.S(h.Path))
 	case (ns == nsDAV && local == "getcontentlength") || ((ns == nsCal || ns == nsCard) && local == "max-resource-size"):
 		// encoding/xml copyValue for an int64 field
+		// (i <negative?> <value in decimal>)
 		if len(text) == 0 {
-			return "(i 0)"
+			return hx.L("i", "0", hx.S("0"))
 		}
 		n, err := strconv.ParseInt(strings.TrimSpace(string(text)), 10, 64)
 		if err != nil {
 			return "b"
 		}
-		return hx.L("i", hx.B(n < 0))
+		return hx.L("i", hx.B(n < 0), hx.S(strconv.FormatInt(n, 10)))
 	case ns == nsDAV && local == "getlastmodified":
+		// (v <Unix seconds>)
 		var t verifhook.Time
-		return good(t.UnmarshalText(text) == nil)
+		if t.UnmarshalText(text) != nil {
+			return "b"
+		}
+		return hx.L("v", hx.S(strconv.FormatInt(time.Time(t).Unix(), 10)))
 	case ns == nsDAV && local == "getetag":
 		var e verifhook.ETag
-		return good(e.UnmarshalText(text) == nil)
+		if e.UnmarshalText(text) != nil {
+			return "b"
+		}
+		return hx.L("v", hx.S(string(e)))
+	case (ns == nsDAV && local == "displayname") || (ns == nsCal && local == "calendar-description") || (ns == nsCard && local == "addressbook-description"):
+		return hx.L("v", hx.S(string(text))) // a string field: the element's own character data
+	case ns == nsCal && local == "supported-calendar-component-set":
+		// the name attribute of every comp child, as encoding/xml fills comp.Name
+		var names []string
+		for _, k := range kids {
+			if k.Name.Local == "comp" {
+				names = append(names, attrValue(k, "name"))
+			}
+		}
+		return hx.L("v", hx.S(strings.Join(names, ",")))
+	case ns == nsCard && local == "supported-address-data":
+		var types []string
+		for _, k := range kids {
+			if k.Name.Local == "address-data-type" {
+				types = append(types, attrValue(k, "content-type")+";"+attrValue(k, "version"))
+			}
+		}
+		return hx.L("v", hx.S(strings.Join(types, ",")))
 	case ns == nsCal && local == "calendar-data":
 		return icalParse(text)
 	case ns == nsCard && local == "address-data":
 		return vcardParse(text)
 	}
 	return "-"
+}
+
+// attrValue: the attribute a field tagged `xml:"<local>,attr"` receives (any namespace, the
+// last one wins; namespace declarations are dropped when the value is captured).
+func attrValue(se xml.StartElement, local string) string {
+	v := ""
+	for _, a := range se.Attr {
+		if a.Name.Local == local && a.Name.Space != "xmlns" {
+			v = a.Value
+		}
+	}
+	return v
 }
 
 // xmlTree reads the body the way xml.Decoder.Decode does (skip to the first start
@@ -366,6 +411,7 @@ func xmlTree(body string) string {
 func renderElem(d *xml.Decoder, se xml.StartElement, out *strings.Builder) bool {
 	var text []byte
 	var kids strings.Builder
+	var kidStarts []xml.StartElement
 	for {
 		tok, err := d.Token()
 		if err != nil {
@@ -374,6 +420,7 @@ func renderElem(d *xml.Decoder, se xml.StartElement, out *strings.Builder) bool 
 		switch t := tok.(type) {
 		case xml.StartElement:
 			kids.WriteByte(' ')
+			kidStarts = append(kidStarts, t.Copy())
 			if !renderElem(d, t, &kids) {
 				return false
 			}
@@ -385,7 +432,7 @@ func renderElem(d *xml.Decoder, se xml.StartElement, out *strings.Builder) bool 
 			out.WriteByte(' ')
 			out.WriteString(hx.S(se.Name.Local))
 			out.WriteByte(' ')
-			out.WriteString(annotate(se.Name.Space, se.Name.Local, text))
+			out.WriteString(annotate(se.Name.Space, se.Name.Local, text, kidStarts))
 			out.WriteString(kids.String())
 			out.WriteByte(')')
 			return true
@@ -615,16 +662,23 @@ func call1(method, path string, cs *clientSet) (out string, keep func() string) 
 		}
 		return pr(), pr
 	}
+	// list results carry, after the paths, the metadata of every object:
+	// (meta (<etag> <mod time, Unix seconds> <length>)...)
+	objMeta := func(etag string, mod time.Time, n int64) string {
+		return hx.L(hx.S(etag), hx.S(strconv.FormatInt(mod.Unix(), 10)), hx.S(strconv.FormatInt(n, 10)))
+	}
 	calObjs := func(l []caldav.CalendarObject, err error) (string, func() string) {
 		if err != nil {
 			return fail(err)
 		}
 		pr := func() string {
 			var ps []string
+			meta := []string{"meta"}
 			for i := range l {
 				ps = append(ps, l[i].Path)
+				meta = append(meta, objMeta(l[i].ETag, l[i].ModTime, l[i].ContentLength))
 			}
-			return paths(ps...)
+			return paths(ps...) + " " + hx.L(meta...)
 		}
 		return pr(), pr
 	}
@@ -634,10 +688,12 @@ func call1(method, path string, cs *clientSet) (out string, keep func() string) 
 		}
 		pr := func() string {
 			var ps []string
+			meta := []string{"meta"}
 			for i := range l {
 				ps = append(ps, l[i].Path)
+				meta = append(meta, objMeta(l[i].ETag, l[i].ModTime, l[i].ContentLength))
 			}
-			return paths(ps...)
+			return paths(ps...) + " " + hx.L(meta...)
 		}
 		return pr(), pr
 	}
@@ -659,7 +715,11 @@ func call1(method, path string, cs *clientSet) (out string, keep func() string) 
 		if err != nil {
 			return fail(err)
 		}
-		io.Copy(io.Discard, rc)
+		if cs.hc.endlessBody() {
+			rc.Read(make([]byte, 16)) // the caller of Open owns the body: it does not read an endless one to its end
+		} else {
+			io.Copy(io.Discard, rc)
+		}
 		rc.Close()
 		return "(ok)", nil
 	case "ReadDir":
@@ -696,10 +756,13 @@ func call1(method, path string, cs *clientSet) (out string, keep func() string) 
 		}
 		pr := func() string {
 			var ps []string
+			meta := []string{"meta"} // (<name> <description> <max size> <component names>)
 			for i := range l {
 				ps = append(ps, l[i].Path)
+				meta = append(meta, hx.L(hx.S(l[i].Name), hx.S(l[i].Description),
+					hx.S(strconv.FormatInt(l[i].MaxResourceSize, 10)), hx.S(strings.Join(l[i].SupportedComponentSet, ","))))
 			}
-			return paths(ps...)
+			return paths(ps...) + " " + hx.L(meta...)
 		}
 		return pr(), pr
 	case "QueryCalendar":
@@ -733,10 +796,17 @@ func call1(method, path string, cs *clientSet) (out string, keep func() string) 
 		}
 		pr := func() string {
 			var ps []string
+			meta := []string{"meta"} // (<name> <description> <max size> <content-type;version ...>)
 			for i := range l {
 				ps = append(ps, l[i].Path)
+				var types []string
+				for _, t := range l[i].SupportedAddressData {
+					types = append(types, t.ContentType+";"+t.Version)
+				}
+				meta = append(meta, hx.L(hx.S(l[i].Name), hx.S(l[i].Description),
+					hx.S(strconv.FormatInt(l[i].MaxResourceSize, 10)), hx.S(strings.Join(types, ","))))
 			}
-			return paths(ps...)
+			return paths(ps...) + " " + hx.L(meta...)
 		}
 		return pr(), pr
 	case "QueryAddressBook":
@@ -762,10 +832,12 @@ func call1(method, path string, cs *clientSet) (out string, keep func() string) 
 		}
 		pr := func() string {
 			var upd []string
+			meta := []string{"meta"} // (<mod time, Unix seconds> <etag>) of every update
 			for i := range r.Updated {
 				upd = append(upd, r.Updated[i].Path)
+				meta = append(meta, hx.L(hx.S(strconv.FormatInt(r.Updated[i].ModTime.Unix(), 10)), hx.S(r.Updated[i].ETag)))
 			}
-			return hx.L("sync", strs(r.Deleted), strs(upd))
+			return hx.L("sync", strs(r.Deleted), strs(upd)) + " " + hx.L(meta...)
 		}
 		return pr(), pr
 	}
